@@ -41,14 +41,37 @@ func loadClaims(prop string) (*claimFile, error) {
 	return &c, nil
 }
 
+// loadKnownFindings reads /verif/KNOWN_FINDINGS: one finding per line,
+//   open: property=<id> clause=<obligation clause> <what fails>
+//   fixed: property=<id> <commit> <what failed>          (suppresses nothing)
 func loadKnownFindings() []knownFinding {
-	b, err := os.ReadFile(filepath.Join(verifRoot, "known_findings.json"))
+	b, err := os.ReadFile(filepath.Join(verifRoot, "KNOWN_FINDINGS"))
 	if err != nil {
 		return nil
 	}
-	var k []knownFinding
-	json.Unmarshal(b, &k)
-	return k
+	var out []knownFinding
+	for _, l := range strings.Split(string(b), "\n") {
+		l = strings.TrimSpace(l)
+		if !strings.HasPrefix(l, "open:") {
+			continue
+		}
+		k := knownFinding{Status: "open"}
+		rest := strings.Fields(l[5:])
+		var what []string
+		for _, f := range rest {
+			switch {
+			case strings.HasPrefix(f, "property="):
+				k.Property = f[9:]
+			case strings.HasPrefix(f, "clause="):
+				k.Clause = f[7:]
+			default:
+				what = append(what, f)
+			}
+		}
+		k.What = strings.Join(what, " ")
+		out = append(out, k)
+	}
+	return out
 }
 
 // clauseServes: does an obligation belong to property prop?
